@@ -52,7 +52,7 @@ fn ln_near(x: Decimal) -> f64 {
 }
 
 fn too_close_to_one(x: Decimal) -> bool {
-    (x - Decimal::ONE).abs() <= Decimal::new(1, 18)
+    (x - Decimal::ONE).abs() <= Decimal::new(1, 17)
 }
 
 fn un(x: R, g: impl Fn(Decimal, Q) -> R) -> R {
@@ -362,6 +362,9 @@ fn call(fun: Func, args: &[Node], at: Decimal) -> R {
                 RV::Unspec("U3: logarithm of a non-positive number")
             } else if vs[0] == Decimal::ONE {
                 keep(q, Decimal::ZERO)
+            } else if too_close_to_one(vs[0]) {
+                // |ln x| < 1e-17 carries the library's absolute error of about 1e-27: no 1e-9 relative there
+                RV::Unspec("U3: logarithm of an argument within 1e-17 of 1 at 28 digits")
             } else {
                 let l = ln_near(vs[0]);
                 from_f64(q, if fun == Ln { l } else { l / std::f64::consts::LN_2 })
@@ -371,9 +374,9 @@ fn call(fun: Func, args: &[Node], at: Decimal) -> R {
             if vs[0] <= Decimal::ZERO || vs[1] <= Decimal::ZERO || vs[1] == Decimal::ONE {
                 RV::Unspec("U3: log outside its domain")
             } else if too_close_to_one(vs[1]) || (vs[0] != Decimal::ONE && too_close_to_one(vs[0])) {
-                // ln(1 + d) carries an absolute error of the arithmetic's resolution 1e-28: below |d| = 1e-18
+                // ln(1 + d) carries an absolute error of about ten units of the arithmetic's resolution 1e-28: below |d| = 1e-17
                 // the quotient of logarithms cannot be expected within 1e-9 relative
-                RV::Unspec("U3: logarithm of an argument within 1e-18 of 1 is ill-conditioned at 28 digits")
+                RV::Unspec("U3: logarithm of an argument within 1e-17 of 1 is ill-conditioned at 28 digits")
             } else if vs[0] == Decimal::ONE {
                 keep(q, Decimal::ZERO)
             } else {
